@@ -24,6 +24,8 @@ EVIDENCE_DIR = os.path.join(ROOT, "evidence")
 REPLAY_DIR = os.path.join(ROOT, "replays")
 KNOWN_FILE = os.path.join(ROOT, "known_findings.json")
 SCHEMA = "/root/.vp/EVIDENCE.schema.json"
+# the tree under test: /repo (bempp_cl is an editable install of it) unless BEX_REPO points at another checkout
+REPO = os.environ.get("BEX_REPO") or "/repo"
 
 ROUND = 1e-11
 MAX_REPLAYS = 25
@@ -432,6 +434,16 @@ def main(pid, tier, replay, jobs, only=None):
         return 2
     ctx = Ctx(pid, tier, seed, jobs, level=getattr(mod, "LEVEL", "exploration"), replaying=bool(replay))
     ctx.only = set(only.split(",")) if only else None
+    try:
+        import bempp_cl
+
+        where = os.path.dirname(os.path.dirname(os.path.abspath(bempp_cl.__file__)))
+        if os.path.realpath(where) != os.path.realpath(REPO):
+            print("CHECK-BROKEN property=%s bempp_cl is imported from %s, not from %s" % (pid, where, REPO))
+            return 2
+    except ImportError as e:
+        print("CHECK-BROKEN property=%s cannot import bempp_cl: %s" % (pid, e))
+        return 2
     try:
         import numba
 
